@@ -96,9 +96,9 @@ AGGS = ["mean", "median", "min", "max", "online"]
 # /repo commit 8cf3d7f); "P" = the model of the ORIGINAL update (raw batch handed on).  C09_MODEL_ORIGINAL=1 is
 # only for looking at the original behaviour in a scratch worktree.
 import os as _os
-# "O" = OnlineEnsembleForecaster.update as coded (the algorithm is shown forecasts made AFTER the members' cutoffs were moved:
-# known finding); "Of" = the proposed repair (findings/C09-online-update-learns-before-moving-cutoff.patch).
-_ONLINE_TOKEN = "Of" if _os.environ.get("C09_ONLINE_FIXED") == "1" else "O"
+# "Of" = OnlineEnsembleForecaster.update as coded in /repo (since d4b430a the algorithm learns from forecasts made before the
+# cutoffs move); "O" = the behaviour between dabf16c and d4b430a (C09_ONLINE_ORIGINAL=1: only for scratch worktrees).
+_ONLINE_TOKEN = "O" if _os.environ.get("C09_ONLINE_ORIGINAL") == "1" else "Of"
 _PIPE_TOKEN = "P" if _os.environ.get("C09_MODEL_ORIGINAL") == "1" else "Pf"
 
 
